@@ -929,6 +929,35 @@ def _local_normal_forms(tree: ast.Module, log: List[str], mod: str, inv: Set[str
                             new_args.append(a_)
                     if changed_:
                         c.args = new_args
+        # N20: inside `for k, v in X.items():` an item store through the value variable, `v[j] = e`, is the store
+        # `X[k][j] = e` (v is X[k]) as long as neither k, v nor X[k] is rebound in the body
+        for lp in [n for n in ast.walk(fn) if isinstance(n, ast.For)]:
+            it = lp.iter
+            if not (isinstance(it, ast.Call) and isinstance(it.func, ast.Attribute) and it.func.attr == "items" and not it.args
+                    and isinstance(lp.target, ast.Tuple) and len(lp.target.elts) == 2
+                    and all(isinstance(e_, ast.Name) for e_ in lp.target.elts) and _alias_read(it.func.value)):
+                continue
+            kx, vx = lp.target.elts[0].id, lp.target.elts[1].id
+            cont = it.func.value
+            body_nodes = [n for s_ in lp.body for n in ast.walk(s_)]
+            if any(isinstance(n, ast.Name) and isinstance(n.ctx, (ast.Store, ast.Del)) and n.id in (kx, vx) for n in body_nodes):
+                continue
+            cont_txt = ast.unparse(cont)
+            rebinding = False
+            for n in body_nodes:
+                if isinstance(n, (ast.Attribute, ast.Subscript)) and isinstance(n.ctx, (ast.Store, ast.Del)):
+                    if ast.unparse(n) == cont_txt or (isinstance(n, ast.Subscript) and ast.unparse(n.value) == cont_txt):
+                        rebinding = True
+            if rebinding:
+                continue
+            hit = False
+            for n in body_nodes:
+                if isinstance(n, ast.Subscript) and isinstance(n.ctx, ast.Store) and isinstance(n.value, ast.Name) and n.value.id == vx:
+                    n.value = ast.copy_location(ast.Subscript(value=_clone(cont), slice=ast.Name(id=kx, ctx=ast.Load()), ctx=ast.Load()), n.value)
+                    ast.fix_missing_locations(n)
+                    hit = True
+            if hit:
+                log.append(f"{mod}: store through the items() value `{vx}` in {fn.name} written as a store into `{cont_txt}[{kx}]`")
         # N11: a local that is a plain alias of a pure read (row[i + 1], self._x) and whose defining
         # read cannot change before its last use in the same block is replaced by the read
         for blk in _blocks(fn):
@@ -1110,21 +1139,45 @@ def _local_normal_forms(tree: ast.Module, log: List[str], mod: str, inv: Set[str
                     neg2 = isinstance(t2, ast.UnaryOp) and isinstance(t2.op, ast.Not)
                     v2 = t2.operand if neg2 else t2
                     if isinstance(v2, ast.Name) and loads.get(v2.id, 0) == 1:
-                        def tail_const(b):
+                        def _is_flag_assign(t):
+                            return isinstance(t, ast.Assign) and len(t.targets) == 1 and isinstance(t.targets[0], ast.Name) \
+                                and t.targets[0].id == v2.id
+
+                        def _bool_const(e):
+                            return isinstance(e, ast.Constant) and isinstance(e.value, bool)
+
+                        def threadable(b) -> bool:
+                            if not b:
+                                return False
                             t = b[-1]
-                            if isinstance(t, ast.Assign) and len(t.targets) == 1 and isinstance(t.targets[0], ast.Name) \
-                                    and t.targets[0].id == v2.id and isinstance(t.value, ast.Constant) and isinstance(t.value.value, bool):
-                                return t.value.value
-                            return None
-                        a, b = tail_const(s1.body), tail_const(s1.orelse)
-                        if a is not None and b is not None:
-                            def arm(val):
-                                taken = (not val) if neg2 else val
-                                return [_clone(x) for x in (s2.body if taken else s2.orelse)]
-                            s1.body = s1.body[:-1] + arm(a) or [ast.Pass()]
-                            s1.orelse = s1.orelse[:-1] + arm(b) or [ast.Pass()]
-                            if not s1.body:
-                                s1.body = [ast.Pass()]
+                            if _is_flag_assign(t):
+                                if _bool_const(t.value):
+                                    return True
+                                return isinstance(t.value, ast.IfExp) and _bool_const(t.value.body) and _bool_const(t.value.orelse)
+                            if isinstance(t, ast.If) and t.orelse:
+                                return threadable(t.body) and threadable(t.orelse)
+                            return False
+
+                        def arm(val):
+                            taken = (not val) if neg2 else val
+                            return [_clone(x) for x in (s2.body if taken else s2.orelse)]
+
+                        def thread(b):
+                            t = b[-1]
+                            if _is_flag_assign(t):
+                                if _bool_const(t.value):
+                                    return b[:-1] + (arm(t.value.value) or [])
+                                ie = t.value
+                                inner = ast.copy_location(ast.If(test=ie.test, body=arm(ie.body.value) or [ast.Pass()],
+                                                                 orelse=arm(ie.orelse.value)), t)
+                                ast.fix_missing_locations(inner)
+                                return b[:-1] + [inner]
+                            t.body = thread(t.body) or [ast.Pass()]
+                            t.orelse = thread(t.orelse)
+                            return b
+                        if threadable(s1.body) and threadable(s1.orelse):
+                            s1.body = thread(s1.body) or [ast.Pass()]
+                            s1.orelse = thread(s1.orelse)
                             del blk[i + 1]
                             loads[v2.id] = 0
                             log.append(f"{mod}: verdict flag {v2.id} in {fn.name} threaded into its branches")
@@ -1365,7 +1418,7 @@ def _sink_return(block: List[ast.stmt], v: str) -> bool:
         return False
     if not isinstance(prev, (ast.If, ast.Try)):
         return False
-    if isinstance(prev, ast.Try) and (prev.orelse or prev.finalbody):
+    if isinstance(prev, ast.Try) and prev.finalbody:
         return False
 
     def has_tail_assign(blk: List[ast.stmt]) -> bool:
@@ -1376,8 +1429,8 @@ def _sink_return(block: List[ast.stmt], v: str) -> bool:
             return True
         if isinstance(t, ast.If):
             return has_tail_assign(t.body) or has_tail_assign(t.orelse)
-        if isinstance(t, ast.Try) and not t.orelse and not t.finalbody:
-            return has_tail_assign(t.body) or any(has_tail_assign(h.body) for h in t.handlers)
+        if isinstance(t, ast.Try) and not t.finalbody:
+            return has_tail_assign(t.orelse or t.body) or any(has_tail_assign(h.body) for h in t.handlers)
         return False
     if not has_tail_assign([prev]):
         return False
@@ -1398,8 +1451,12 @@ def _sink_return(block: List[ast.stmt], v: str) -> bool:
             t.body = push(t.body)
             t.orelse = push(t.orelse)
             return blk
-        if isinstance(t, ast.Try) and not t.orelse and not t.finalbody:
-            t.body = push(t.body)
+        if isinstance(t, ast.Try) and not t.finalbody:
+            # with an else clause the body falls through into it: the return goes to the tail of the else
+            if t.orelse:
+                t.orelse = push(t.orelse)
+            else:
+                t.body = push(t.body)
             for h in t.handlers:
                 h.body = push(h.body)
             return blk
@@ -1408,7 +1465,10 @@ def _sink_return(block: List[ast.stmt], v: str) -> bool:
         prev.body = push(prev.body)
         prev.orelse = push(prev.orelse)
     else:
-        prev.body = push(prev.body)
+        if prev.orelse:
+            prev.orelse = push(prev.orelse)
+        else:
+            prev.body = push(prev.body)
         for h in prev.handlers:
             h.body = push(h.body)
     del block[-1]
